@@ -326,6 +326,13 @@ static void prepare(Case& C, Gen& gen, Rng& g, unsigned variant, Out* out) {
             for (auto& p : c.polys) fix(p.rep);
             for (auto& p : c.labels) fix(p.rep);
             for (auto& p : c.refs) fix(p.rep);
+            // Reference::repeat_and_transform multiplies by cos(rotation) and sin(rotation) from libm: cos(pi / 2) = 6e-17, not 0.
+            // On the grid that is far below half a grid step; off the grid a box corner that is EXACTLY half a step from two
+            // grid points is then rounded by the sign of that error.  The model has the exact 0 and +-1, so Cell-typed
+            // references stay unrotated in the off-grid cases that ask for bounding boxes
+            if (C.f_bbox)
+                for (auto& r : c.refs)
+                    if (r.how == 0 || r.how == 3) r.k = 0;
         });
         if (out) out->count("class:off-grid");
     }
